@@ -1,0 +1,35 @@
+//go:build verif
+
+package warning
+
+// Machine-checked contracts for the deductive checks in /verif (see
+// /verif/DESIGN.md). Comment-only; compiled solely under the "verif" build tag.
+
+//@ define isWarning(e) := typeis(e, *Warning)
+
+//@ func Is
+//@   pure
+//@   assigns nothing
+//@   ensures [is] ret == isWarning(err)
+
+//@ func As
+//@   pure
+//@   assigns nothing
+//@   ensures [as] (isWarning(err) ==> ret == unbox(err, *Warning)) && (!isWarning(err) ==> ret == nil)
+
+//@ func Wrap
+//@   assigns nothing
+//@   ensures [none] len(errs) == 0 ==> ret == nil
+//@   ensures [same] len(errs) == 1 && isWarning(errs[0]) ==> ret == errs[0]
+//@   ensures [wrap] len(errs) > 0 && !(len(errs) == 1 && isWarning(errs[0])) ==>
+//@       isWarning(ret) && fresh(unbox(ret, *Warning)) && unbox(ret, *Warning) != nil && unbox(ret, *Warning).errs == errs
+
+//@ func Newf
+//@   assigns nothing
+//@   ensures [new] ret != nil && fresh(ret) && len(ret.errs) == 1 && ret.errs[0] != nil && ret.message == ""
+//@   ensures [wraps] contains(f, "%w") && len(x) > 0 ==> wrapsErr(ret.errs[0], x[0])
+
+//@ func Wrapf
+//@   assigns nothing
+//@   ensures [new] isWarning(ret) && unbox(ret, *Warning) != nil && fresh(unbox(ret, *Warning)) &&
+//@       len(unbox(ret, *Warning).errs) == 1 && unbox(ret, *Warning).errs[0] == err
